@@ -30,6 +30,8 @@ def place_cuts(rng, e, p=0.35):
         return (k, place_cuts(rng, e[1], p))
     if k == 'rep':
         return ('rep', e[1], e[2] if e[2] is None else place_cuts(rng, e[2], p / 2), e[3], place_cuts(rng, e[4], p))
+    if k == 'assoc':
+        return ('assoc', e[1], place_cuts(rng, e[2], p / 2), place_cuts(rng, e[3], p))
     if k == 'look':
         return ('look', e[1], place_cuts(rng, e[2], p))
     if k == 'named':
@@ -65,7 +67,7 @@ def shard_e1(col, shard, ngrammars, ninputs):
     rng = col.rng
     cases = []
     for gi in range(ngrammars):
-        g = G.gen_grammar(rng, G.GenCfg(cuts=0.0, skipto=0.01, consts=0.01), depth=rng.choice([2, 3, 3]))
+        g = G.gen_grammar(rng, G.GenCfg(cuts=0.0, skipto=0.01, consts=0.01, assoc=0.02), depth=rng.choice([2, 3, 3]))
         g['rules'] = [(n, d, place_cuts(rng, e)) for n, d, e in g['rules']]
         ncut = sum(1 for _, _, e in g['rules'] for x in E.walk(e) if x == 'cut')
         col.count('cuts.per-grammar', ncut)
